@@ -186,7 +186,7 @@ def check(env, rep, tier):
         # ---- C12.3 no stale correlation
         import blockutil
         pcl = None
-        serve = blockutil.fns_calling(prog, "core::slice::<impl [T]>::chunks")
+        serve = blockutil.find_serve(prog)
         for sv in serve:
             for bb in sv["blocks"]:
                 t = bb["term"]
